@@ -31,7 +31,7 @@ fn lines(v: &[i32]) -> BTreeSet<i32> {
 /// C13: one fixed findings set, rendered from two independently built std HashMaps (different
 /// insertion orders, hence different internal layouts; each map instance also gets its own
 /// RandomState keys). Under Miri the keys depend on the Miri seed.
-fn c13() -> i32 {
+fn c13(variant: usize) -> i32 {
     let opts = optimizations::get_all_optimizations();
     let vuls = vulnerabilities::get_all_vulnerabilities();
     let qas = qa::get_all_qa();
@@ -39,7 +39,14 @@ fn c13() -> i32 {
 
     let build_o = |rev: bool| {
         let mut m: HashMap<Optimization, Vec<(String, BTreeSet<i32>)>> = HashMap::new();
-        let mut ks: Vec<Optimization> = opts.iter().copied().take(7).collect();
+        // which optimisation patterns take part depends on the variant (at most 7 of them)
+        let mut ks: Vec<Optimization> = opts
+            .iter()
+            .copied()
+            .cycle()
+            .skip((variant * 5) % opts.len())
+            .take(2 + variant % 6)
+            .collect();
         if rev {
             ks.reverse();
         }
@@ -55,7 +62,15 @@ fn c13() -> i32 {
     };
     let build_v = |rev: bool| {
         let mut m: HashMap<Vulnerability, Vec<(String, BTreeSet<i32>)>> = HashMap::new();
-        let mut ks: Vec<Vulnerability> = vuls.clone();
+        // every non-empty subset of the vulnerability patterns occurs for some variant
+        let mask = 1 + (variant % 15);
+        let mut ks: Vec<Vulnerability> = vuls
+            .iter()
+            .copied()
+            .enumerate()
+            .filter(|(i, _)| mask & (1 << i) != 0)
+            .map(|(_, v)| v)
+            .collect();
         if rev {
             ks.reverse();
         }
@@ -107,8 +122,9 @@ fn c13() -> i32 {
     // fingerprint of the order std's HashMap really iterates in (evidence that the seed varies it)
     let order: Vec<String> = build_o(false).keys().map(|k| format!("{:?}", k)).collect();
     println!(
-        "RESULT c13 {:016x} bytes={} order={:016x}",
+        "RESULT c13 {:016x} variant={} bytes={} order={:016x}",
         fnv(&r1),
+        variant,
         r1.len(),
         fnv(&order.join(","))
     );
@@ -194,7 +210,7 @@ fn c15(variant: usize) -> i32 {
 fn main() {
     let args: Vec<String> = std::env::args().collect();
     let code = match args.get(1).map(|s| s.as_str()) {
-        Some("c13") => c13(),
+        Some("c13") => c13(args.get(2).and_then(|s| s.parse().ok()).unwrap_or(0)),
         Some("c15") => c15(args.get(2).and_then(|s| s.parse().ok()).unwrap_or(0)),
         _ => {
             eprintln!("usage: sim-miri c13 | c15 <variant>");
